@@ -30,6 +30,12 @@ class C10(Prop):
                 if tz:
                     f["tz"] = tz
                 out.append(Case("run", f, "builtins"))
+        # an object that HAS methods (with outside effects): nothing a script writes may call them - fields are data, methods are not
+        for kind in "89":
+            obj = "K%s(%s,7)" % (kind, vlib.hx("report"))
+            for src in ["return Discard;", "return [Name, Count, Touch, Secret, Size];", 'if (Name == "report" && Discard) { return 1; } return 0;', "x = Touch; y = $Secret; return len(Name);",
+                        "foreach m in [Discard, Touch] { z = m; } return Size;", "function f() { return Secret; } return f();", "return Discard();", "return Name.Touch;"]:
+                out.append(Case("run", {"script": vlib.hx(src), "objs": obj, "ops": "prepare:%s;exec:0;run:0" % rng.choice(["opt", "noopt"])}, "object-methods", note=src))
         n = 3000 if tier == "thorough" else 300
         for _ in range(n):
             g = gen.Gen(rng, max_depth=2, illtyped=0.1)
